@@ -9,6 +9,7 @@ mkdir -p .build/gen.setup && ./.build/extract -repo "${VERIF_REPO:-/repo}" -out 
 for f in .build/gen.setup/*.lean; do
   cmp -s "$f" "lean/SA/Gen/$(basename "$f")" || cp "$f" "lean/SA/Gen/$(basename "$f")"
 done
+python3 gen_driver.py >/dev/null
 (cd lean && lake build SA sa-model 2>&1 | grep -v '^✔' | grep -v "depends on axioms" | tail -20)
 python3 - <<'PY'
 import sys, os
